@@ -713,6 +713,30 @@ def growsK (allowNew : Bool) (bs : Shape) (dv : Option Nat) : Kids → Kids → 
     k == k' && cbs == cbs' && cdv == cdv' && cns == cns' && growsK allowNew cbs cdv sub sub' && growsK allowNew bs dv r r'
   | _, _ => false
 
+/-- `select(*keys, inplace=True)` (its effect on the mapping is C04's subject: Props/C04.lean `select_refines`): seen on the
+metadata, entries may only DISAPPEAR — what remains (in the order of the keys, which is free here) keeps its key, batch size,
+device and names at every depth -/
+def shrinksK : Kids → Kids → Bool
+  | _, [] => true
+  | kids, (k, .leaf s d) :: r =>
+    (match kget k kids with
+      | some (.leaf s0 d0) => s == s0 && d == d0
+      | _ => false) && shrinksK kids r
+  | kids, (k, .node cbs cdv cns sub') :: r =>
+    (match kget k kids with
+      | some (.node b0 d0 n0 sub0) => cbs == b0 && cdv == d0 && cns == n0 && shrinksK sub0 sub'
+      | _ => false) && shrinksK kids r
+
+/-- an in-place `select` observed to end in `obs`: accepted iff `obs` is inside that envelope -/
+def selectInM (obs : M) : M → M × Out
+  | .leaf s d => (.leaf s d, .err .attr)
+  | .node bs dv ns kids =>
+    match obs with
+    | .node bs' dv' ns' kids' =>
+      if bs == bs' && dv == dv' && ns == ns' && shrinksK kids kids' then (.node bs dv ns kids', .ok)
+      else (.node bs dv ns kids, .err .runtime)
+    | .leaf .. => (.node bs dv ns kids, .err .runtime)
+
 /-- a write into existing storage observed to end in `obs`: accepted iff `obs` is inside the envelope -/
 def writeM (allowNew : Bool) (obs : M) : M → M × Out
   | .leaf s d => (.leaf s d, .err .attr)
@@ -749,6 +773,7 @@ inductive Op where
   | update (handle : Path) (items : List (Path × PV))
   | updateTd (handle : Path) (payload : M)
   | write (handle : Path) (allowNew : Bool) (observed : M)
+  | selectIn (handle : Path) (observed : M)
   | autoBatch (handle : Path) (batchDims : Option Nat)
   | excludeIn (handle : Path) (keys : List Path)
   | flattenIn (handle : Path) (sep : String)
@@ -774,6 +799,7 @@ def step (t : M) : Op → M × Out
   | .update h items => atPath (updateC (updMeasureC items) items) h t
   | .updateTd h m => atPath (updateTdM m) h t
   | .write h an obs => atPath (writeM an obs) h t
+  | .selectIn h obs => atPath (selectInM obs) h t
   | .autoBatch h bd => atPath (autoBatchM bd) h t
   | .excludeIn h keys => atPath (excludeM keys) h t
   | .flattenIn h sep => atPath (flattenM sep) h t
